@@ -229,7 +229,9 @@ class C14(scen.PairProp):
         A, B = (scen.rings(r) for r in reply["runs"])
         N = req["N"]
         if req["mode"] == "origin":
-            if len(A) != len(B):
+            # (the runs end at a fixed offset: at an epoch of 1.8e9 s a strike due at the very end may fall a
+            # rounding error on the other side of it)
+            if abs(len(A) - len(B)) > 1:
                 return f"clock origin moved by {req['shift']}: {len(A)} strikes became {len(B)}"
             for (ta, ba, ha), (tb, bb, hb) in zip(A, B):
                 if ba != bb or abs((tb - req["shift"]) - ta) > 5e-5:
